@@ -218,11 +218,22 @@ pub trait RemoteSyncHandler {
                     }
                 }
 
+                // Folders that do not exist yet on local are created
+                // once the conflict on the account events is resolved
+                let local_folders = account
+                    .folder_details()
+                    .await?
+                    .into_iter()
+                    .map(|s| *s.id())
+                    .collect::<Vec<_>>();
                 let merge_folders = remote_changes
                     .diff
                     .folders
                     .into_iter()
-                    .filter(|(k, _)| maybe_conflict.folders.get(k).is_none())
+                    .filter(|(k, _)| {
+                        maybe_conflict.folders.get(k).is_none()
+                            && local_folders.contains(k)
+                    })
                     .collect::<HashMap<_, _>>();
                 for (id, maybe_diff) in merge_folders {
                     if let MaybeDiff::Diff(diff) = maybe_diff {
